@@ -34,6 +34,7 @@ RULE = ('SQLite database files with one table t of 1-4 columns declared '
         'delete the row -> ... -> final closure check. Non-trivial: >=1 '
         'non-null value and >=1 perturbation applied; distinct by case '
         'hash.')
+RULE += ' ' + 'Also: column names with %, {}, ?, [], $ and implementation-like names (columns, fields, cache, rows, types, name, count ...); in most cases the database file first holds a decoy table with the same column names and rotated declared types that is discovered and verified, then is deleted and recreated; 1 case in 60 is a constructed table of 1100 / 4200 distinct strings whose extremes sort last, or of 501 / 620 / 733 differently shaped strings (as many expressions); 28-row tables with 21-28 differently shaped strings.'
 ASSUMPTIONS = ['NaN reals, fractional-second datetimes, table names needing '
                'quotes and column names containing a double quote are not '
                'generated (outside what the SQLite support documents)']
